@@ -1,0 +1,14 @@
+//go:build verif
+
+package asp
+
+import "github.com/thought-machine/please/src/core"
+
+// This file only exports unexported things for the /verif conformance harness (labels family).
+// It is compiled with -tags verif only.
+
+// VerifValidateSandbox runs the sandbox opt-out check that every parsed target goes through
+// ([sandbox] excludeabletargets whitelist and [parse] experimentaldir exemption).
+func VerifValidateSandbox(state *core.BuildState, target *core.BuildTarget) error {
+	return validateSandbox(state, target)
+}
